@@ -54,6 +54,8 @@ def main():
     jobs = mod.jobs(tier)
     if a.only:
         jobs = [j for j in jobs if a.only in j.name]
+        # a partial run must not overwrite the evidence of the full check
+        os.environ.setdefault('VERIF_EVIDENCE_DIR', os.path.join(tempfile.gettempdir(), 'vcheck-partial-evidence'))
     meta = getattr(mod, 'META', {})
     code = runner.run_property(pid, jobs, tier, seed,
                                level=meta.get('level', 'other'),
